@@ -76,6 +76,29 @@ def gen(rng, tier, no, wide=False):
             for nm, lo, hi in [("phase_outer", a - 2, b + 2), ("phase_inner", a - 2, b + 2), ("phase_leaf", a, a + max(1, (b - a) // 2))]:
                 ev.insert(rng.randint(1, len(ev)), {"ph": "X", "cat": "gpu_user_annotation", "name": nm + rng.choice(["", f"_r{r}"]), "pid": k0["pid"], "tid": k0["tid"],
                                                      "ts": lo, "dur": hi - lo, "args": {"External id": 900 + r}})
+    # four kernels with different names and the same total duration, heavier than all others: with three named rows in the
+    # kernel breakdown, which of the four is folded into "others" is decided by a tie
+    if rng.random() < 0.5:
+        for r in sorted(case["ranks"]):
+            ev = case["ranks"][r]
+            ks = [e for e in ev if e.get("cat") == "kernel" and isinstance((e.get("args") or {}).get("stream"), int)]
+            hs = [e for e in ev if e.get("cat") == "cpu_op"]
+            if not ks or not hs:
+                continue
+            sums: Dict[str, int] = {}
+            for e in ks:
+                sums[e["name"]] = sums.get(e["name"], 0) + e["dur"]
+            d = max(sums.values()) + 5
+            t = max(e["ts"] + e.get("dur", 0) for e in ev if e.get("ph") == "X" and "ts" in e) + 20
+            k0, h0 = ks[0], hs[0]
+            names = ["tie_kernel_d", "tie_kernel_a", "tie_kernel_c", "tie_kernel_b"]
+            rng.shuffle(names)
+            ev.append({"ph": "X", "cat": "cpu_op", "name": "aten::tie_block", "pid": h0["pid"], "tid": h0["tid"], "ts": t, "dur": 4 * d + 40, "args": {"External id": 880000 + r}})
+            for j, nm in enumerate(names):
+                c = 88000000 + 10 * r + j
+                ev.append({"ph": "X", "cat": "cuda_runtime", "name": "cudaLaunchKernel", "pid": h0["pid"], "tid": h0["tid"], "ts": t + 1 + 2 * j, "dur": 1, "args": {"correlation": c, "External id": c}})
+                ev.append({"ph": "X", "cat": "kernel", "name": nm, "pid": k0["pid"], "tid": k0["tid"], "ts": t + 10 + j * (d + 1), "dur": d,
+                           "args": {"correlation": c, "stream": k0["args"]["stream"], "device": r, "External id": c}})
     # vocabulary inclusion: a rank other than the first one whose vocabulary contains every symbol of all the others (its
     # local table is then as long as the global one, numbered differently)
     if n >= 2 and rng.random() < 0.25:
